@@ -28,7 +28,7 @@ def _reset(MSG, start):
 @st.composite
 def build_case(draw, tier):
     depth = 2 if tier == 'quick' else 3
-    msgs = [draw(S.message(body_depth=depth)) for _ in range(draw(st.integers(1, 3)))]
+    msgs = [draw(S.message(body_depth=depth, big=True)) for _ in range(draw(st.integers(1, 3)))]
     start = draw(st.one_of(st.sampled_from([1, 2, 0x0a0d, 0x0d0a - 1, 2**32 - 3, 2**32 - 2, 2**32 - 1, 2**31]),
                            st.integers(1, 2**32 - 1)))
     return {'msgs': msgs, 'start': start}
@@ -113,7 +113,7 @@ def classify_build(case):
 
 @st.composite
 def parse_case(draw, tier):
-    msg = draw(S.message(body_depth=2 if tier == 'quick' else 3))
+    msg = draw(S.message(body_depth=2 if tier == 'quick' else 3, big=True))
     nextra = draw(st.sampled_from([0, 0, 1, 2]))
     extra = []
     for _ in range(nextra):
